@@ -734,12 +734,29 @@ def check_condition(prog, site, cond):
                 po = prim.origin_of_operand(fn, tt.args[0]).strip()
                 if po.k == "const":
                     pats.append(po.a.get("v"))
+        via_closure = False
+        if not pats and fn.closure_of:
+            # the index is taken inside a closure run on the Some payload of captures(): `re.captures(s).and_then(|caps| caps[2]..)`
+            parent = prim.closure_parent(prog, fn)
+            ro = prim.origin_of_operand(fn, t.args[0]).strip()
+            if parent is not None and ro.k == "arg" and ro.a.get("idx", 0) >= 2:
+                for bb, tt in parent.calls():
+                    if (tt.callee or "").startswith("regex::Regex::new"):
+                        po = prim.resolve_promoted(parent, prim.origin_of_operand(parent, tt.args[0])).strip()
+                        if po.k == "const":
+                            pats.append(po.a.get("v"))
+                for bb, tt in parent.calls():
+                    if tt.j.get("callee_name") in ("and_then", "map", "map_or", "map_or_else", "is_some_and", "filter", "inspect", "filter_map") and (tt.callee or "").startswith(("std::option::Option", "core::option::Option")) \
+                            and any(("closure:%s" % fn.path) in prim.origin_of_operand(parent, a).fmt() for a in tt.args[1:]):
+                        po = prim.expand_single_def_vars(parent, prim.origin_of_operand(parent, tt.args[0]))
+                        if any(cn.a["name"] == "captures" for cn in po.call_nodes()):
+                            via_closure = True
         if len(pats) != 1 or not isinstance(idx, int):
             return False, "cannot identify the regex literal / constant group index"
         ok, why = _group_total(pats[0], idx)
         # and the Captures value comes from a successful captures() of it
         o = prim.expand_single_def_vars(fn, prim.origin_of_operand(fn, t.args[0]))
-        from_caps = any(c.a["name"] == "captures" for c in o.call_nodes()) and any(x.k == "variant" and str(x.a) == "Some" for x in o.walk())
+        from_caps = via_closure or (any(c.a["name"] == "captures" for c in o.call_nodes()) and any(x.k == "variant" and str(x.a) == "Some" for x in o.walk()))
         return ok and from_caps, "group %s of %r %s" % (idx, pats[0], why)
     if ty == "dominated_by_count_eq":
         n = cond["value"]
